@@ -3,7 +3,7 @@ from hypothesis import strategies as st
 
 from engines.runtime_worker import run_scenario
 from engines.scenarios import ALL, COROUTINE, events, switchinterval
-from vlib.core import Result, TestDef
+from vlib.core import HarnessError, Result, TestDef
 
 ID = "C03"
 LEVEL = "exploration"
@@ -47,6 +47,8 @@ def steady(draw):
     counts = {f: draw(st.integers(0, 12)) for f in ALL}
     while sum(counts.values()) > 24:
         counts[max(counts, key=counts.get)] -= 1
+    if draw(st.integers(0, 5)) == 0:
+        counts[draw(st.sampled_from(ALL))] = draw(st.sampled_from([25, 40, 70]))  # "0..n per flavour": occasionally many of one flavour
     nservices = {f: draw(st.integers(0, 6)) for f in ALL}
     while sum(nservices.values()) > 8:
         nservices[max(nservices, key=nservices.get)] -= 1
@@ -85,7 +87,21 @@ def steady(draw):
         program.append(["beat", 5, 100000])
         payloads.append({"id": 900 + ALL.index(pflv), "flavour": pflv, "role": "parent", "reg": {"how": "pre"}, "program": program,
                          "end": ["forever"], "cleanup": {}})
-    for d in drivers:
+    churn = draw(st.integers(0, 2)) == 0
+    if churn:
+        # a service finishes and is dropped; a new service is created in the very same polling cycle
+        script = []
+        for i in range(draw(st.integers(1, 3))):
+            flv_a, flv_b = draw(st.sampled_from(ALL)), draw(st.sampled_from(ALL))
+            a, b = 800 + 2 * i, 801 + 2 * i
+            payloads.append({"id": a, "flavour": flv_a, "role": "service", "mode": "churn-short", "reg": {"how": "outside"}, "program": [], "end": ["return", "None"], "cleanup": {}})
+            payloads.append({"id": b, "flavour": flv_b, "role": "service", "mode": "churn-new", "reg": {"how": "outside"}, "program": [["beat", 5, 100000]], "end": ["forever"], "cleanup": {}})
+            t0 = draw(st.sampled_from(times)) + 40 * i
+            script += [{"at_ms": t0, "op": "service", "pid": a}, {"at_ms": t0, "op": "await-starts-of", "pids": [a], "timeout_ms": 10000},
+                       {"at_ms": t0, "op": "sleep", "ms": int(ad * 3000) + 10}, {"at_ms": t0, "op": "drop-service", "pid": a}, {"at_ms": t0, "op": "service", "pid": b}]
+        drivers.append(script)
+        post_service = True
+    for d in drivers[:ndrivers]:
         d.sort(key=lambda s: s["at_ms"])
     n_expected = len(payloads)
     drivers.append([{"at_ms": 0, "op": "await-starts", "n": n_expected, "timeout_ms": 20000},
@@ -138,8 +154,7 @@ def race(draw):
 def judge(sc, obs) -> Result:
     res = Result()
     if obs.get("worker_error"):
-        res.fail("worker-error", obs["worker_error"])
-        return res
+        raise HarnessError("scenario worker failed: " + str(obs["worker_error"]))
     if obs.get("hang") or not obs.get("episodes"):
         res.expensive = True
         res.fail("runtime-did-not-stop", f"accept() did not end within {BOUND}s after shutdown(); threads {obs.get('hang_threads')}")
@@ -147,8 +162,7 @@ def judge(sc, obs) -> Result:
     out = obs["episodes"][0]
     for o in obs.get("ops", []):
         if o.get("error"):
-            res.fail("harness-driver-error", f"{o}")
-            return res
+            raise HarnessError(f"driver thread failed: {o}")
     if out["how"] != "returned":
         res.fail("runtime-failed", f"no failure was injected but accept() raised {out.get('exc')}")
         return res
@@ -225,6 +239,7 @@ def judge(sc, obs) -> Result:
         lost = [pid for pid, p in specs.items() if pid not in starts]
         if lost:
             desc = [(pid, specs[pid]["flavour"], specs[pid]["role"], specs[pid].get("mode", specs[pid]["reg"]["how"])) for pid in lost[:6]]
+            res.expensive = True
             res.fail("payload-lost", f"{len(lost)} of {len(specs)} payloads/services never started within the bound: {desc}")
     res.info_in_window = in_window
     return res
